@@ -255,6 +255,10 @@ pub enum CallSpec {
     SetProblem { problem: usize },
     Construct { stalls: Vec<Stall> },
     Solve { timeout_ns: u64, stalls: Vec<Stall> },
+    /// The planner's public parameter fields are assigned between two calls (they are `pub`:
+    /// `planner.goal_bias = 0.0;` is part of the API). Fields the planner kind does not have
+    /// are ignored.
+    SetParams { max_distance: f64, goal_bias: f64, search_radius: f64, connection_radius: f64, prm_timeout_s: f64 },
 }
 
 #[derive(Serialize, Deserialize, Clone, Debug, PartialEq)]
@@ -306,6 +310,35 @@ impl Scenario {
     }
     pub fn param(&self, k: &str) -> Option<f64> {
         self.params.get(k).copied()
+    }
+    /// The planner parameters in force when call `ci` executes: the constructor's (every `New`
+    /// builds the planner from `self.planner` again) overridden by the latest `SetParams`.
+    pub fn planner_at(&self, ci: usize) -> PlannerSpec {
+        let mut p = self.planner.clone();
+        for c in self.calls.iter().take(ci) {
+            match c {
+                CallSpec::New => p = self.planner.clone(),
+                CallSpec::SetParams { max_distance, goal_bias, search_radius, connection_radius, prm_timeout_s } => {
+                    p.max_distance = *max_distance;
+                    p.goal_bias = *goal_bias;
+                    p.search_radius = *search_radius;
+                    p.connection_radius = *connection_radius;
+                    p.prm_timeout_s = *prm_timeout_s;
+                }
+                _ => {}
+            }
+        }
+        p
+    }
+    /// Moves the scenario's planner parameters into a `SetParams` call right after the first
+    /// `Setup` and gives the constructor other ones: the parameters in force at every later call
+    /// are the original ones, but they were assigned after `new` and `setup`.
+    pub fn reconfigure_after_setup(&mut self, ctor: PlannerSpec) {
+        let Some(k) = self.calls.iter().position(|c| matches!(c, CallSpec::Setup { .. })) else { return };
+        let p = self.planner.clone();
+        self.calls.insert(k + 1, CallSpec::SetParams { max_distance: p.max_distance, goal_bias: p.goal_bias, search_radius: p.search_radius, connection_radius: p.connection_radius, prm_timeout_s: p.prm_timeout_s });
+        self.planner = PlannerSpec { kind: p.kind, seed: p.seed, ..ctor };
+        self.params.insert("reconfigured".into(), 1.0);
     }
 }
 
